@@ -191,6 +191,7 @@ func cmdCheck(args []string) int {
 	known := loadKnown()
 	var outcomes []*entryOutcome
 	loadFail := ""
+	var groupLoadFails []string
 	for _, g := range spec.Groups {
 		var files []string
 		for _, f := range g.Files {
@@ -202,8 +203,10 @@ func cmdCheck(args []string) int {
 		}
 		w, tp, err := loadWorld(g.Pkg, files)
 		if err != nil {
-			loadFail = err.Error()
-			break
+			// a group that does not load (a harness no longer compiles against the tree) fails the check
+			// with exit 2 unless another group of the property produces a confirmed counterexample
+			groupLoadFails = append(groupLoadFails, g.Pkg+": "+err.Error())
+			continue
 		}
 		for _, e := range g.Entries {
 			if *only != "" && e.Name != *only {
@@ -266,6 +269,9 @@ func cmdCheck(args []string) int {
 		if loadFail != "" {
 			break
 		}
+	}
+	if loadFail == "" && len(outcomes) == 0 && len(groupLoadFails) > 0 {
+		loadFail = strings.Join(groupLoadFails, "; ")
 	}
 	if loadFail != "" {
 		fmt.Printf("[%s] LOAD-FAILURE: %s\n", prop, loadFail)
@@ -431,6 +437,15 @@ func cmdCheck(args []string) int {
 	}
 	for _, l := range vioLines {
 		fmt.Println(l)
+	}
+	if len(groupLoadFails) > 0 {
+		for _, lf := range groupLoadFails {
+			fmt.Printf("[%s] LOAD-FAILURE (group): %s\n", prop, lf)
+		}
+		if exit != 1 {
+			writeEvidence(prop, tierName, seed, &spec, outcomes, nil, replays, confirmed, time.Since(t0), "load failure: "+strings.Join(groupLoadFails, "; "))
+			return 2
+		}
 	}
 	status := "ok"
 	if exit == 0 && len(inconclusive) > 0 {
